@@ -64,11 +64,11 @@ def ob_info_tools(ctx, res):
     # region sizes are differences of header offsets: only meaningful (and only computable) for the usual region order
     for tool, file in (("bigwiginfo", WI), ("bigbedinfo", BI)):
         fn = ctx.ast.fn(file, "print_info")
-        raw = [n for n in walk_no_nested_fn(fn.body) if n.k == "binary" and n["op"] == "-" and re.search(r"header\.(full_index_offset|full_data_offset)", up(n))]
+        raw = [n for n in walk_no_nested_fn(fn.body) if n.k == "binary" and n["op"] == "-" and re.search(r"\.(full_index_offset|full_data_offset|index_offset|data_offset)\b", up(n))]
         chk = [n for n in walk_no_nested_fn(fn.body) if n.k == "mcall" and n["method"] == "checked_sub" and re.search(r"header\.(full_index_offset|full_data_offset)", up(n))]
         if raw:
             res.fail("info/%s/region-sizes" % tool, raw[0],
-                     "`%s` subtracts header offsets assuming data < index < zoom data: on a valid file laid out differently (zoom data before the main index) it underflows - "
+                     "`%s` subtracts file offsets assuming the usual region order (data, index, zoom data; each zoom level's data before its index): on a valid file laid out differently it underflows - "
                      "a panic before anything else is printed; compute the size only when it exists (checked_sub)" % up(raw[0]))
             ok = False
         elif len(chk) < 2:
